@@ -452,17 +452,46 @@ var mutators = map[string]bool{
 	"strings.Builder.WriteString": true, "bytes.Buffer.Write": true,
 }
 
+// readOnlyInPlacePkgs: in the packages whose business is rearranging a slice or map in place (slices, sort, maps) every function
+// is taken to write its first argument unless it is listed here as reading only - the list of mutators above cannot be
+// complete for packages that grow with every release (seed C13h: slices.DeleteFunc compacts the caller's names in place
+// and zeroes the tail).
+var readOnlyInPlace = map[string]bool{
+	"slices.Contains": true, "slices.ContainsFunc": true, "slices.Index": true, "slices.IndexFunc": true, "slices.Equal": true, "slices.EqualFunc": true,
+	"slices.Compare": true, "slices.CompareFunc": true, "slices.BinarySearch": true, "slices.BinarySearchFunc": true, "slices.Max": true, "slices.MaxFunc": true,
+	"slices.Min": true, "slices.MinFunc": true, "slices.IsSorted": true, "slices.IsSortedFunc": true, "slices.Clone": true, "slices.Concat": true,
+	"slices.All": true, "slices.Values": true, "slices.Backward": true, "slices.Collect": true, "slices.Sorted": true, "slices.SortedFunc": true, "slices.SortedStableFunc": true,
+	"slices.Repeat": true, "slices.Chunk": true,
+	"sort.SearchStrings": true, "sort.SearchInts": true, "sort.SearchFloat64s": true, "sort.Search": true, "sort.Find": true, "sort.StringsAreSorted": true, "sort.IntsAreSorted": true,
+	"sort.Float64sAreSorted": true, "sort.SliceIsSorted": true, "sort.IsSorted": true, "sort.Reverse": true,
+	"sort.StringSlice.Len": true, "sort.StringSlice.Less": true, "sort.IntSlice.Len": true, "sort.IntSlice.Less": true,
+	"maps.Keys": true, "maps.Values": true, "maps.All": true, "maps.Equal": true, "maps.EqualFunc": true, "maps.Clone": true, "maps.Collect": true,
+}
+
+func inPlacePkgCall(name string) bool {
+	for _, pk := range []string{"slices.", "sort.", "maps."} {
+		if strings.HasPrefix(name, pk) {
+			return !readOnlyInPlace[name]
+		}
+	}
+	return false
+}
+
 // purePkgs: calls into these packages do not write memory reachable from their arguments
 // (other than receivers / destinations listed in mutators) and return fresh values.
 var purePkgs = map[string]bool{
 	"fmt": true, "strings": true, "errors": true, "strconv": true, "math": true, "unicode": true, "unicode/utf8": true,
 	"golang.org/x/net/bpf": true, "syscall": true, "runtime": true, "reflect": true, "golang.org/x/sys/unix": true, "unsafe": true, "io": true,
-	"encoding/binary": true, "sort": true, "slices": true,
+	"encoding/binary": true, "sort": true, "slices": true, "maps": true,
 }
 
 func qualName(f *ssa.Function) string {
 	if f == nil {
 		return ""
+	}
+	// an instance of a generic function (`slices.Sort[[]string,string]`) is named like the function it instantiates
+	if o := f.Origin(); o != nil {
+		f = o
 	}
 	pkg := ""
 	if f.Pkg != nil {
@@ -575,7 +604,7 @@ func (a *Analysis) call(f *ssa.Function, c ssa.CallInstruction) {
 			name = "(func value)"
 		}
 	}
-	if mutators[name] {
+	if mutators[name] || inPlacePkgCall(name) {
 		for o := range a.Pts(com.Args[0]) {
 			a.write(o, c, f, "call to "+name+" (modifies its first argument in place)")
 		}
